@@ -72,7 +72,11 @@ class LeafNode(TreeNode):
         return len(str(self.object))
 
     def edits(self, node: TreeNode) -> Edit:
-        if isinstance(node, LeafNode):
+        if isinstance(node, NullNode):
+            # A null has size zero, so the edit distance to the text "None" can exceed the sizes of both nodes,
+            # which every enclosing edit assumes to bound the cost; replace instead, as NullNode.edits does
+            return Replace(self, node)
+        elif isinstance(node, LeafNode):
             return Match(self, node, levenshtein_distance(str(self.object), str(node.object)))
         elif isinstance(node, ContainerNode):
             return Replace(self, node)
